@@ -320,5 +320,28 @@ func nonzeroValue(v ssa.Value, b *ssa.BasicBlock, depth int) (bool, string) {
 		}
 		return true, ""
 	}
+	// min(a, b, …) of non-negative quantities is non-zero when every operand is; max when any operand is
+	if call, ok := v.(*ssa.Call); ok {
+		if bi, ok := call.Call.Value.(*ssa.Builtin); ok && (bi.Name() == "min" || bi.Name() == "max") && len(call.Call.Args) > 0 {
+			all, any := true, false
+			for _, a := range call.Call.Args {
+				nz := db.pos(sym(a), 0)
+				if !nz {
+					if ln, isLen := isBuiltinCall(a, "len"); isLen {
+						_ = ln
+						nz = db.nonzero(sym(a)) // a length is never negative
+					}
+				}
+				if nz {
+					any = true
+				} else {
+					all = false
+				}
+			}
+			if (bi.Name() == "min" && all) || (bi.Name() == "max" && any) {
+				return true, ""
+			}
+		}
+	}
 	return false, "no fact implies " + sym(v) + " != 0"
 }
